@@ -88,7 +88,7 @@ func NewEpochsContext(spec *Spec, state BeaconState) (*EpochsContext, error) {
 	if err := epc.LoadProposers(state); err != nil {
 		return nil, err
 	}
-	if syncState, ok := state.(SyncCommitteeBeaconState); ok {
+	if syncState, ok := asSyncCommitteeBeaconState(state); ok {
 		if err := epc.LoadSyncCommittees(syncState); err != nil {
 			return nil, err
 		}
@@ -228,7 +228,7 @@ func (epc *EpochsContext) RotateEpochs(state BeaconState) error {
 	if err := epc.loadCurrentStake(state, indicesBounded); err != nil {
 		return err
 	}
-	if syncState, ok := state.(SyncCommitteeBeaconState); ok {
+	if syncState, ok := asSyncCommitteeBeaconState(state); ok {
 		// if the state has a list of sync committee pubkeys, we want to cache the indices of that sync committee
 		if epc.CurrentEpoch.Epoch%epc.Spec.EPOCHS_PER_SYNC_COMMITTEE_PERIOD == 0 {
 			// just got into the epoch, we just need to re-hydrate the EPC
